@@ -571,3 +571,7 @@ SPECS["C05"]["level_text"] += ". Added: the stored name the pairing guard compar
 for _p in ("C06", "C10"):
     SPECS[_p]["contracts"] += ["smpl_extract.structural:Traversable.children[first-use,one-routine]"]
 SPECS["C06"]["level_text"] += ". Added: Traversable.children hands a freshly realised level of ANY size (a lone entry included) to the routine table"
+
+# C08: the sample-reversed view for widths OTHER than the proved 1, 2, 4 (24-bit samples, 24-bit stereo frames): bounded stand-in on the real class
+SPECS["C08"]["bounded"] += [("contracts.util_stream", "smpl_extract.util.stream:StreamReversed.read"), ("contracts.util_stream", "smpl_extract.util.stream:StreamReversed.seek")]
+SPECS["C08"]["level_text"] += ". BOUNDED for the reversed view with sample widths 3, 5, 6 (the general-width contract is assumed, not proved): every position x size x cursor of views of 1..3 samples"
